@@ -265,8 +265,12 @@ func (r *receiver) run(ctx context.Context) error {
 				if err := r.orderValidator.HandleChange(ChangeKindAdd, cp.path, &StatInfo{cp.stat}, nil); err != nil {
 					return err
 				}
-				if err := r.hlValidator.HandleChange(ChangeKindAdd, cp.path, &StatInfo{cp.stat}, nil); err != nil {
-					return err
+				if !metaOnly {
+					// an entry that is only recorded in the metadata listing never reaches the
+					// disk, so it cannot be the source of a hard link that does
+					if err := r.hlValidator.HandleChange(ChangeKindAdd, cp.path, &StatInfo{cp.stat}, nil); err != nil {
+						return err
+					}
 				}
 				if metadataTransfer {
 					parent := filepath.Dir(cp.path)
